@@ -521,6 +521,7 @@ func runC07(c *Ctx) {
 	// (4) mergeKeys
 	checkMergeKeysState(c)
 	checkListApplySiblings(c, "siblings.apply-errors")
+	checkNoRelabelAsMissing(c, "siblings.no-relabel")
 }
 
 
